@@ -336,6 +336,9 @@ func genReq(t *rapid.T, label string, intact *bool) Req {
 				{"empty indexed vector", func(b map[string]any) { pt(b)["vector"] = []any{} }},
 				{"vector given as a string", func(b map[string]any) { pt(b)["vector"] = "memes" }},
 				{"integer field given as a string", func(b map[string]any) { pt(b)["size"] = "12" }},
+				{"integer field given as a fraction", func(b map[string]any) { pt(b)["size"] = 3.7 }},
+				{"integer field given as a number beyond 64 bits", func(b map[string]any) { pt(b)["size"] = 1e30 }},
+				{"nested integer field given as a fraction", func(b map[string]any) { pt(b)["meta"] = map[string]any{"k": -0.5} }},
 				{"float field given as a string", func(b map[string]any) { pt(b)["price"] = "1.5" }},
 				{"string field given as a number", func(b map[string]any) { pt(b)["category"] = 5.0 }},
 				{"text field given as an array", func(b map[string]any) { pt(b)["description"] = []any{"a"} }},
@@ -686,6 +689,25 @@ func genCase(t *rapid.T) Case {
 		default:
 			c.Reqs = append(c.Reqs, Req{Method: "DELETE", Path: "/v1/collections/new1/points", Headers: hd, Body: `{"ids":["` + poolIds[0] + `"]}`, MustReject: "v1 request on a collection without the v1 graph index"})
 		}
+		intact = false
+	}
+	if rapid.IntRange(0, 7).Draw(t, "v1-metadata-index") == 0 {
+		// a collection with the v1 graph index and, created through v2, further indexes on metadata fields;
+		// the v1 API writes to it: metadata values have to fit those indexes as they do through v2
+		hd := map[string]string{"Content-Type": "application/json", "X-User-Id": "alice", "X-Plan-Id": plan}
+		sch := map[string]any{
+			"vector":       map[string]any{"type": "vectorVamana", "vectorVamana": map[string]any{"vectorSize": 2.0, "distanceMetric": "euclidean", "searchSize": 75.0, "degreeBound": 64.0, "alpha": 1.2}},
+			"metadata.loc": map[string]any{"type": "vectorFlat", "vectorFlat": map[string]any{"vectorSize": 2.0, "distanceMetric": rapid.SampledFrom([]string{"haversine", "euclidean", "dot"}).Draw(t, "v1m-metric")}},
+			"metadata.k":   map[string]any{"type": "integer"},
+		}
+		jb, _ := json.Marshal(map[string]any{"id": "mix2", "indexSchema": sch})
+		c.Reqs = append(c.Reqs, Req{Method: "POST", Path: "/v2/collections", Headers: hd, Body: string(jb)})
+		bad := rapid.SampledFrom([]string{`{"loc":[1]}`, `{"loc":[1,2,3]}`, `{"loc":"north"}`, `{"k":"seven"}`, `{"k":2.5}`, `{"loc":[]}`}).Draw(t, "v1m-bad")
+		c.Reqs = append(c.Reqs,
+			Req{Method: "POST", Path: "/v1/collections/mix2/points", Headers: hd, Body: `{"points":[{"vector":[1,2],"metadata":{"loc":[10,20],"k":3}}]}`},
+			Req{Method: "POST", Path: "/v1/collections/mix2/points", Headers: hd, Body: `{"points":[{"vector":[2,1],"metadata":` + bad + `}]}`, MustReject: "v1 insert whose metadata does not fit the collection's indexes"},
+			Req{Method: "POST", Path: "/v2/collections/mix2/points/search", Headers: hd, Body: `{"query":{"property":"metadata.loc","vectorFlat":{"vector":[11,21],"operator":"near","limit":5}},"limit":5}`},
+			Req{Method: "POST", Path: "/v2/collections/mix2/points/search", Headers: hd, Body: `{"query":{"property":"metadata.k","integer":{"value":0,"operator":"greaterThan"}},"limit":5}`})
 		intact = false
 	}
 	for i := 0; i < n; i++ {
